@@ -49,25 +49,41 @@ Definition fee_p (total wP wV wQ : N) (proposer_known : bool) : res (N * N * N) 
     then Ok (persist, rest, 0)                             (* :72 Move of everything that is left; :89 then sees zero *)
     else Ok (persist, 0, rest).                            (* :89-108 *)
 
-(* (a2) disburseFeesVQ -- fees.go:116-247.
+(* (a2) disburseFeesVQ -- fees.go:116-255 (with the repair of commit c9cfe37).
    Inputs: LastBlockFees, number of entries of the commit info, number of
    voting entities, weights, whether the proposer resolved.
    Output: (paid to the next proposer, share paid to EACH voter, remainder to the common pool).
-   The voters' loop (fees.go:207-226) performs [nVE] Moves of [shareVote] out of
-   the remaining fees and fails on the first that is not covered; that is the
-   same Ok/Fatal outcome (and the same remainder) as one subtraction of the product. *)
+   The voters' loop performs [nVE] Moves of [shareVote] out of the remaining
+   fees and fails on the first that is not covered; that is the same Ok/Fatal
+   outcome (and the same remainder) as one subtraction of the product. *)
+Definition fee_vq_tail (last perV shareNP nVE : N) (proposer_known : bool) : res (N * N * N) :=
+  do shareVote <- qsub perV shareNP ;
+  let npTotal := shareNP * nVE in
+  let pay_np := negb (npTotal =? 0) && proposer_known in
+  do last1 <- (if pay_np then qsub last npTotal else Ok last) ;
+  do last2 <- (if shareVote =? 0 then Ok last1 else qsub last1 (shareVote * nVE)) ;
+  Ok ((if pay_np then npTotal else 0), shareVote, last2).
+
 Definition fee_vq (last nEV nVE wV wQ : N) (proposer_known : bool) : res (N * N * N) :=
   if last =? 0 then Ok (0, 0, 0)                           (* :133-136 *)
   else
     do perV <- qquo last nEV ;                             (* :145-152 *)
     let denom := wV + wQ in                                (* :153-156 *)
-    do shareNP <- qquo (perV * wQ) denom ;                 (* :157-163 *)
-    do shareVote <- qsub perV shareNP ;                    (* :164-167 *)
-    let npTotal := shareNP * nVE in                        (* :170-178 *)
-    let pay_np := negb (npTotal =? 0) && proposer_known in (* :181 *)
-    do last1 <- (if pay_np then qsub last npTotal else Ok last) ;   (* :187 *)
-    do last2 <- (if shareVote =? 0 then Ok last1 else qsub last1 (shareVote * nVE)) ; (* :205-226 *)
-    Ok ((if pay_np then npTotal else 0), shareVote, last2). (* :229-244 *)
+    if denom =? 0 then                                     (* :155-161 repair: nothing owed, all to the common pool *)
+      Ok (0, 0, last)
+    else
+      do shareNP <- qquo (perV * wQ) denom ;               (* :162-168 *)
+      fee_vq_tail last perV shareNP nVE proposer_known.    (* :169-252 *)
+
+(* disburseFeesVQ as it was BEFORE commit c9cfe37 (fees.go:116-247 of c9cfe37~1):
+   the division by vote + next-propose weight is unguarded. *)
+Definition fee_vq_original (last nEV nVE wV wQ : N) (proposer_known : bool) : res (N * N * N) :=
+  if last =? 0 then Ok (0, 0, 0)
+  else
+    do perV <- qquo last nEV ;
+    let denom := wV + wQ in
+    do shareNP <- qquo (perV * wQ) denom ;
+    fee_vq_tail last perV shareNP nVE proposer_known.
 
 (* ------------------------------------------------------------------ *)
 (* share pools -- go/staking/api/api.go:626-720 *)
@@ -315,7 +331,11 @@ Definition run_call (c : call) : outv :=
   | CFeeP t p v q k =>
       match fee_p t p v q k with Ok (a, b, c) => OTriple a b c | Fatal => OFatal end
   | CFeeVQ l e n v q k =>
-      match fee_vq l e n v q k with Ok (a, b, c) => OTriple a b c | Fatal => OFatal end
+      (* the per-voter share is observable only when somebody is paid *)
+      match fee_vq l e n v q k with
+      | Ok (a, b, c) => OTriple a (if n =? 0 then 0 else b) c
+      | Fatal => OFatal
+      end
   | CReward rd cd b ts f s nu de p r =>
       match reward rd cd b ts f s nu de p r with
       | Ok None => ONone
